@@ -806,7 +806,7 @@ func TestC22(t *testing.T) {
 	lims := []lim{
 		{rc.OpLP8, []int{0, 1, 254, 255, 256, 257}},
 		{rc.OpLP16, []int{255, 256, 65534, 65535, 65536, 65537}},
-		{rc.OpASN1, []int{0, 1, 126, 127, 128, 129, 255, 256, 257, 65535, 65536, 65537}},
+		{rc.OpASN1, []int{0, 1, 126, 127, 128, 129, 255, 256, 257, 65535, 65536, 65537, 1<<20 - 1, 1 << 20, 1<<20 + 1}},
 		{rc.OpLP24, []int{65535, 65536}},
 		{rc.OpLP32, []int{65535, 65536}},
 	}
